@@ -252,8 +252,13 @@ def gen_weight_memory(rng):
     return dict(cfg=c, kind="history", steps=steps)
 
 
-def gen_across(rng):
-    """targeted C09 pair: identical from the first FFC-affected frame on, different scene level before it; the
+def fr_flat(w, h, v, age, v2=None):
+    return dict(a="frame", pix=[[v] * w for _ in range(h)], ffcAge=age, pix2=[[(v if v2 is None else v2)] * w for _ in range(h)])
+
+
+def gen_across(rng, early=False):
+    """targeted C09 pair (early: the FFC period begins and ends within the first frame-compare-gap frames of the stream,
+    before the detector's history has wrapped once): identical from the first FFC-affected frame on, different scene level before it; the
     frames after the period sit at the level of stream 1's past, so a comparison across the period shows up as
     motion in stream 2 only"""
     w, h = rng.randint(3, 6), rng.randint(3, 5)
@@ -266,6 +271,13 @@ def gen_across(rng):
     L2 = max(c["T"] + 1, L2) if L2 > 0 else L + 300
     npre, nper, npost = rng.randint(1, 6), rng.randint(1, 4), rng.randint(3, 8)
     use_reset = (not dyn) and rng.random() < 0.45
+    if early:
+        c["Gap"], c["Dyn"], dyn, use_reset = rng.choice([4, 6, 9]), False, False, False
+        npre, nper = rng.randint(1, 2), rng.randint(1, 2)
+        steps = [fr_flat(w, h, L, 60000, L2) for i in range(npre)]
+        steps += [fr_flat(w, h, L + rng.choice([0, 3]), rng.choice([0, 2000, 9999])) for i in range(nper)]
+        steps += [fr_flat(w, h, L + rng.choice([0, 1, 2]), 60000 if i else rng.choice([10000, 10001, 60000])) for i in range(npost)]
+        return dict(cfg=c, kind="history", steps=steps)
     steps = []
     def fr(v, age, v2=None):
         st = dict(a="frame", pix=[[v] * w for _ in range(h)], ffcAge=age)
@@ -326,6 +338,19 @@ def build_scripts(ctx, prop, tier):
         if prop == "C07":
             c = rand_cfg(rng, dyn=False)
             scripts.append(dict(cfg=c, kind="", steps=gen_stream(rng, c, rng.randint(8, 40), ffc=False)))
+        elif prop == "C08" and i % 12 == 5:
+            # edge-pixels of half the smaller frame dimension or more: every pixel is border, nothing may ever be detected
+            # whatever the two streams hold (fixed threshold: no background statistics over an empty interior)
+            c = rand_cfg(rng, dyn=False)
+            c["Tmin"], c["Tmax"] = 0, 0
+            m = min(c["W"], c["H"])
+            c["Edge"], c["Cnt"] = rng.randint((m + 1) // 2, m - 1), 1
+            st, T = [], c["T"]
+            for k in range(rng.randint(8, 25)):
+                mk = lambda: [[max(0, min(65535, T + rng.choice([-50, 0, 1, 400, 1500, 1500 + c["Delta"] + 1, 20000]))) for x in range(c["W"])]
+                              for y in range(c["H"])]
+                st.append(dict(a="frame", pix=mk(), pix2=mk(), ffcAge=60000))
+            scripts.append(dict(cfg=c, kind="border", steps=st))
         elif prop == "C08":
             dyn = rng.random() < 0.5
             c = rand_cfg(rng, dyn=dyn)
@@ -341,7 +366,7 @@ def build_scripts(ctx, prop, tier):
                 pair_cold(rng, st, c); kind = "cold"
             scripts.append(dict(cfg=c, kind=kind, steps=st))
         elif prop == "C09" and i % 5 < 2:
-            scripts.append(gen_across(rng) if i % 10 else gen_weight_memory(rng))
+            scripts.append((gen_across(rng, early=(i % 20 == 6)) if i % 10 else gen_weight_memory(rng)))
         elif prop == "C09":
             c = rand_cfg(rng, dyn=rng.random() < 0.4)
             if rng.random() < 0.6:
@@ -606,6 +631,14 @@ def run(ctx):
                 if st["a"] == "frame" and k > 4 and rng.random() < (0.06 if i % 2 else 0.0):
                     st2.append(dict(a="reset", stopFail=rng.random() < 0.7))
             sc["steps"] = st2
+            if prop == "C07" and i % 4 == 1 and sc.get("kind", "") == "":
+                # a recording window that closes and re-opens in the middle of the stream: what the detector reports and
+                # what it compares with does not depend on it
+                sc["windowed"] = True
+                a = rng.randint(2, max(3, len(st2) // 2))
+                for st in st2[a:a + rng.randint(3, 15)]:
+                    if st["a"] == "frame":
+                        st["closed"] = True
             cs.append(sc)
         binm = ctx.go_test_build("./motion", "motion.test")
         inp, outp = ctx.path("run", "chain.json"), ctx.path("run", "chain.ndjson")
@@ -630,7 +663,8 @@ def run(ctx):
                            frames=sum(1 for e in cev if e["ev"] == "dframe"),
                            resets_while_recording=sum(1 for e in cev if e["ev"] == "dreset" and e.get("while_recording")),
                            resets_with_failed_stop=sum(1 for e in cev if e["ev"] == "dreset" and e.get("stop_failed")),
-                           through_throttle=sum(1 for s in cs if "throttle" in s))
+                           through_throttle=sum(1 for s in cs if "throttle" in s),
+                           with_recording_window=sum(1 for s in cs if s.get("windowed")))
     rej, acc = conform(ctx, trace)
     conf = dict(events_accepted=acc, rejected_at=None)
     if rej is not None:
